@@ -1592,8 +1592,14 @@ def unroll_literal_loops(fn, limit=8):
     the copies of its body with the variables replaced by the constants - 'for i, name in enumerate(('t_x','t_y','t_z')):
     g.translation[i] = pars[name]' is the three stores it stands for.  Returns fn."""
     def items(it):
+        def pure(x):
+            # a constant, a name or an attribute chain: evaluating it again in each copy of the body changes nothing
+            while isinstance(x, ast.Attribute):
+                x = x.value
+            return isinstance(x, (ast.Constant, ast.Name))
+
         def lit(e):
-            return list(e.elts) if isinstance(e, (ast.Tuple, ast.List)) and all(isinstance(x, ast.Constant) for x in e.elts) else None
+            return list(e.elts) if isinstance(e, (ast.Tuple, ast.List)) and all(pure(x) for x in e.elts) else None
         if lit(it) is not None:
             return [[x] for x in lit(it)]
         if isinstance(it, ast.Call) and dotted(it.func) == "enumerate" and it.args and lit(it.args[0]) is not None:
